@@ -28,11 +28,14 @@ import (
 	"github.com/whoisnian/glb/daemon"
 )
 
-const nHandlers = 4
+const nHandlers = 8
 
 func init() {
 	for i := 0; i < nHandlers; i++ {
-		daemon.Register(fmt.Sprintf("h%d", i), daemonBody)
+		name := fmt.Sprintf("h%d", i)
+		// the body knows under which name it was REGISTERED: if Launch(x) ends
+		// up running the handler of y, the process reports itself as y
+		daemon.Register(name, func() { daemonBody(name) })
 	}
 	if daemon.Run() {
 		os.Exit(0)
@@ -44,6 +47,7 @@ type plan struct {
 	Markers int    `json:"markers"`
 	Name    string `json:"name"`
 	Group   int    `json:"group"` // launches with the same group number run concurrently
+	Burst   bool   `json:"burst,omitempty"`
 }
 
 func waitFile(path string, d time.Duration) bool {
@@ -69,8 +73,10 @@ func waitGlob(pattern string, d time.Duration) string {
 }
 
 // daemonBody is the handler that runs in the daemon process.
-func daemonBody() {
-	dir := filepath.Join(os.Getenv("PW_BASE"), os.Getenv("ENV_DAEMON_NAME"))
+func daemonBody(registered string) {
+	dir := filepath.Join(os.Getenv("PW_BASE"), registered)
+	os.MkdirAll(filepath.Join(os.Getenv("PW_BASE"), "pids"), 0755)
+	os.WriteFile(filepath.Join(os.Getenv("PW_BASE"), "pids", strconv.Itoa(os.Getpid())), []byte(registered), 0644)
 	var p plan
 	if b, err := os.ReadFile(filepath.Join(dir, "plan.json")); err == nil {
 		json.Unmarshal(b, &p)
@@ -100,6 +106,7 @@ type violation struct {
 
 type outcome struct {
 	Plan   plan       `json:"plan"`
+	Peers  []plan     `json:"group_plans,omitempty"` // the whole burst, for replay
 	Viol   *violation `json:"violation,omitempty"`
 	Infra  string     `json:"infra,omitempty"`
 	Events []string   `json:"events"`
@@ -137,7 +144,7 @@ func ppidOf(pid int) int {
 	return -1
 }
 
-func runOne(base string, p plan) (o outcome) {
+func runOne(base string, p plan, barrier *sync.WaitGroup) (o outcome) {
 	start := time.Now()
 	o.Plan = p
 	ev := func(format string, a ...any) {
@@ -186,6 +193,11 @@ func runOne(base string, p plan) (o outcome) {
 	}
 	done := make(chan lres, 1)
 	go func() {
+		if barrier != nil {
+			// a burst: every launch of the group calls Launch at the same moment
+			barrier.Done()
+			barrier.Wait()
+		}
 		pid, err := daemon.Launch(p.Name)
 		done <- lres{pid, err}
 	}()
@@ -259,12 +271,22 @@ func runOne(base string, p plan) (o outcome) {
 		fail("launch-error", "Launch returned error %q (daemon pid %d running=%v)", res.err, daemonPid, running)
 		return
 	}
+	if b, err := os.ReadFile(filepath.Join(base, "pids", strconv.Itoa(res.pid))); err == nil && string(b) != p.Name {
+		fail("wrong-handler", "Launch(%q) returned pid %d, but that process runs the handler registered as %q", p.Name, res.pid, b)
+		daemonPid = res.pid
+		return
+	}
 	if daemonPid == 0 {
 		fail("no-daemon", "Launch returned nil but no daemon reported itself")
 		return
 	}
 	if res.pid != daemonPid {
 		fail("wrong-pid", "Launch returned pid %d, the daemon's own pid is %d (launcher pid %d)", res.pid, daemonPid, lpid)
+	}
+	if b, err := os.ReadFile(filepath.Join(base, "pids", strconv.Itoa(res.pid))); err != nil {
+		fail("wrong-handler", "Launch(%q) returned pid %d, which is not a process running one of the registered handlers", p.Name, res.pid)
+	} else if string(b) != p.Name {
+		fail("wrong-handler", "Launch(%q) returned pid %d, but that process runs the handler registered as %q", p.Name, res.pid, b)
 	}
 	for i := 0; i < p.Markers; i++ {
 		if _, err := os.Stat(filepath.Join(dir, fmt.Sprintf("marker.%d", i))); err != nil {
@@ -288,6 +310,30 @@ func runOne(base string, p plan) (o outcome) {
 		fail("launcher-still-there", "the launcher (pid %d) still exists after Launch returned", lpid)
 	}
 	return
+}
+
+// runGroup executes the launches of one group concurrently (released together
+// when it is a burst).
+func runGroup(base string, plans []plan) []outcome {
+	res := make([]outcome, len(plans))
+	var wg sync.WaitGroup
+	var barrier *sync.WaitGroup
+	if plans[0].Burst {
+		barrier = &sync.WaitGroup{}
+		barrier.Add(len(plans))
+	}
+	for k := range plans {
+		wg.Add(1)
+		go func(k int) {
+			defer wg.Done()
+			res[k] = runOne(base, plans[k], barrier)
+			if len(plans) > 1 {
+				res[k].Peers = plans
+			}
+		}(k)
+	}
+	wg.Wait()
+	return res
 }
 
 type rng struct{ s uint64 }
@@ -323,25 +369,38 @@ func main() {
 		}
 		var rf struct {
 			Plan      plan      `json:"plan"`
+			Plans     []plan    `json:"plans"`
 			Violation violation `json:"violation"`
 		}
 		if err := json.Unmarshal(b, &rf); err != nil {
 			fmt.Fprintln(os.Stderr, err)
 			os.Exit(2)
 		}
-		o := runOne(base, rf.Plan)
-		for _, e := range o.Events {
-			fmt.Println("  " + e)
+		group := rf.Plans
+		rounds := 1
+		if len(group) == 0 {
+			group = []plan{rf.Plan}
+		} else if len(group) > 1 {
+			// a burst of real processes racing in the kernel cannot be forced
+			// into the identical micro-order: the same burst is repeated
+			rounds = 40
 		}
-		if o.Infra != "" {
-			fmt.Println("REPLAY infra:", o.Infra)
-			os.RemoveAll(base)
-			os.Exit(2)
-		}
-		if o.Viol != nil && o.Viol.Class == rf.Violation.Class {
-			fmt.Printf("REPLAY reproduced: class=%s %s\n", o.Viol.Class, o.Viol.Detail)
-			os.RemoveAll(base)
-			os.Exit(1)
+		for round := 0; round < rounds; round++ {
+			for _, o := range runGroup(base, group) {
+				if o.Infra != "" {
+					fmt.Println("REPLAY infra:", o.Infra)
+					os.RemoveAll(base)
+					os.Exit(2)
+				}
+				if o.Viol != nil && o.Viol.Class == rf.Violation.Class {
+					for _, e := range o.Events {
+						fmt.Println("  " + e)
+					}
+					fmt.Printf("REPLAY reproduced (round %d): class=%s %s\n", round, o.Viol.Class, o.Viol.Detail)
+					os.RemoveAll(base)
+					os.Exit(1)
+				}
+			}
 		}
 		fmt.Println("REPLAY clean")
 		return
@@ -358,12 +417,19 @@ func main() {
 	for len(plans) < *n {
 		group++
 		width := 1
-		if r.next(3) == 0 {
-			width = 2 + r.next(nHandlers-1)
+		burst := false
+		switch r.next(4) {
+		case 0: // a burst of natural-order launches released together
+			width, burst = 2+r.next(nHandlers-1), true
+		case 1: // concurrent launches under forced schedules
+			width = 2 + r.next(3)
 		}
 		for i := 0; i < width && len(plans) < *n; i++ {
 			k := kinds[(len(plans)+r.next(2)*r.next(4))%4]
-			plans = append(plans, plan{Kind: k, Markers: r.next(6), Name: fmt.Sprintf("h%d", i), Group: group})
+			if burst {
+				k = "S1"
+			}
+			plans = append(plans, plan{Kind: k, Markers: r.next(6), Name: fmt.Sprintf("h%d", i), Group: group, Burst: burst})
 		}
 	}
 	var outs []outcome
@@ -372,16 +438,7 @@ func main() {
 		for j < len(plans) && plans[j].Group == plans[i].Group {
 			j++
 		}
-		res := make([]outcome, j-i)
-		var wg sync.WaitGroup
-		for k := i; k < j; k++ {
-			wg.Add(1)
-			go func(k int) {
-				defer wg.Done()
-				res[k-i] = runOne(base, plans[k])
-			}(k)
-		}
-		wg.Wait()
+		res := runGroup(base, plans[i:j])
 		outs = append(outs, res...)
 		i = j
 		nv := 0
